@@ -17,7 +17,7 @@
    Verdicts: "ok"; "skip:<why>" (outside the modelled domain / 31-bit overflow: counted, never
    validated); "note:<what>" (accepted; the code's output differs from the transcription although
    the contract holds); "malformed:<why>" (harness bug); anything else names the violated clause. *)
-EXTENDS TraceIO, Instancer
+EXTENDS TraceIO, Instancer, SequencesExt
 
 VARIABLES tid, verdict
 vars == <<tid, verdict>>
@@ -211,7 +211,10 @@ HalfTerm(R, yR) ==
   IF RBad(sc) \/ ~MulFits(FX \div 2, sc[1]) THEN FX \div 2
   ELSE ICeilDiv((FX \div 2) * sc[1], sc[2])
 RECURSIVE SumOver(_, _)
-SumOver(S, f) == IF S = {} THEN 0 ELSE LET x == CHOOSE x \in S : TRUE IN f[x] + SumOver(S \ {x}, f)
+SumOver(S, f) == IF S = {} THEN 0 ELSE LET x == CHOOSE x \in S : TRUE
+                                           rest == S \ {x}
+                                       IN f[x] + SumOver(rest, f)
+(* ER: per region of the original, the set of INDICES (into the sequence of all distinct exact regions) *)
 ItemExactRegions(v, ER) == UNION {ER[v[k][1]] : k \in {q \in 1..Len(v) : v[q][2] # 0}}
 
 (* ======================================================================================== *)
@@ -266,13 +269,13 @@ FvDeviationFont(fv, nl14, pinned) ==
           LET b == fv.recs[r].box[c] IN b[2] <= nl14[b[1]] /\ nl14[b[1]] <= b[3]
 
 (* verdict of all items at one location: a set of clause names *)
-AtLocFont(r, O, I, axesO, mapsO, axesI, mapsI, lims, errO, errI, ER, u) ==
+AtLocFont(r, O, I, axesO, mapsO, axesI, mapsI, lims, errO, errI, ER, ERS, u) ==
   LET kept == Kept(lims)
       u2 == TLCEval([j \in 1..Len(kept) |-> u[kept[j]]])
       dO == LocData(O, axesO, mapsO, u, errO)
       dI == LocData(I, axesI, mapsI, u2, errI)
       yR == TLCEval([j \in 1..Len(kept) |-> Rat(dI.x[j], F14)])
-      terms == [R \in UNION {ER[q] : q \in 1..Len(ER)} |-> HalfTerm(R, yR)]
+      terms == TLCEval([i \in 1..Len(ERS) |-> HalfTerm(ERS[i], yR)])
       item(i) ==
         LET a == O.items[i]
             b == I.items[i]
@@ -297,7 +300,7 @@ AtLocFont(r, O, I, axesO, mapsO, axesI, mapsI, lims, errO, errI, ER, u) ==
 
 (* items compared relative to the new default location (HVAR of a 'glyf' font: the default advance
    comes from 'gvar', so only the variation part of HVAR is the instancer's) *)
-AtLocRel(r, O, I, axesO, mapsO, axesI, mapsI, lims, errO, errI, ER, u) ==
+AtLocRel(r, O, I, axesO, mapsO, axesI, mapsI, lims, errO, errI, ER, ERS, u) ==
   LET kept == Kept(lims)
       u2 == TLCEval([j \in 1..Len(kept) |-> u[kept[j]]])
       ud == TLCEval([a \in 1..Len(lims) |-> lims[a][2]])
@@ -306,7 +309,7 @@ AtLocRel(r, O, I, axesO, mapsO, axesI, mapsI, lims, errO, errI, ER, u) ==
       dI == LocData(I, axesI, mapsI, u2, errI)
       W == FX \div 2
       yR == TLCEval([j \in 1..Len(kept) |-> Rat(dI.x[j], F14)])
-      terms == [R \in UNION {ER[q] : q \in 1..Len(ER)} |-> HalfTerm(R, yR)]
+      terms == TLCEval([i \in 1..Len(ERS) |-> HalfTerm(ERS[i], yR)])
       item(i) ==
         LET a == O.items[i]
             b == I.items[i]
@@ -349,11 +352,13 @@ JFont(r) ==
                  <<Rat(Norm14(axesO[a], mapsO[a], lims[a][1])[1], F14), Rat(Norm14(axesO[a], mapsO[a], lims[a][2])[1], F14),
                    Rat(Norm14(axesO[a], mapsO[a], lims[a][3])[1], F14), RSub(axesO[a][2], axesO[a][1]), RSub(axesO[a][3], axesO[a][2])>>])
       domOk == \A q \in 1..Len(O.regions) : RegDomainOk(O.regions[q])
-      ER == IF domOk THEN TLCEval([q \in 1..Len(O.regions) |-> ExactRegions(O.regions[q], nlims)]) ELSE <<>>
-      erBad == \E q \in 1..Len(ER) : \E R \in ER[q] : RegBad(R)
-      res == UNION {AtLocFont(r, O, I, axesO, mapsO, axesI, mapsI, lims, errO, errI, ER, u) : u \in ulocs}
+      ERR == IF domOk THEN TLCEval([q \in 1..Len(O.regions) |-> ExactRegions(O.regions[q], nlims)]) ELSE <<>>
+      ERS == TLCEval(SetToSeq(UNION {ERR[q] : q \in 1..Len(ERR)}))          \* all distinct exact regions
+      ER == TLCEval([q \in 1..Len(ERR) |-> {i \in 1..Len(ERS) : ERS[i] \in ERR[q]}])
+      erBad == \E i \in 1..Len(ERS) : RegBad(ERS[i])
+      res == UNION {AtLocFont(r, O, I, axesO, mapsO, axesI, mapsI, lims, errO, errI, ER, ERS, u) : u \in ulocs}
       hasRel == \E i \in 1..Len(O.items) : O.items[i].rel = 1
-      resRel == IF hasRel THEN UNION {AtLocRel(r, O, I, axesO, mapsO, axesI, mapsI, lims, errO, errI, ER, u) : u \in ulocs} ELSE {}
+      resRel == IF hasRel THEN UNION {AtLocRel(r, O, I, axesO, mapsO, axesI, mapsI, lims, errO, errI, ER, ERS, u) : u \in ulocs} ELSE {}
       all == res \cup resRel
       keptInst == SelectSeq(O.instances, LAMBDA co : InstKeep(co, lims))
       wantInst == TLCEval([q \in 1..Len(keptInst) |-> TLCEval([j \in 1..Len(kept) |-> RJ(keptInst[q][kept[j]])])])
